@@ -8,17 +8,20 @@ from . import core
 WSRC = ['wrap_generic.c', 'wrap_ser.c', 'wrap_bo.c']
 
 
-def build(b, opt):
+NOMACRO = ['-U__BYTE_ORDER__', '-U__ORDER_LITTLE_ENDIAN__', '-U__ORDER_BIG_ENDIAN__', '-Wno-builtin-macro-redefined']
+
+
+def build(b, opt, extra=(), tag=''):
     g = os.path.join(b, 'gen')
     core.run_gen(g)
-    wdir = os.path.join(b, 'w' + opt)
+    wdir = os.path.join(b, 'w' + opt + tag)
     os.makedirs(wdir, exist_ok=True)
     inc = ['-I' + os.path.join(core.REPO, 'include'), '-I' + os.path.join(core.ROOT, 'world')]
     cmds, objs = [], []
     # the library: every load/store calls our hooks
     for s in core.repo_sources() + [os.path.join(core.ROOT, 'world', 'toy.c')]:
         o = os.path.join(wdir, core.objname(s))
-        cmds.append(['clang', '-std=gnu99', opt, '-g', '-fsanitize=thread', '-Dmemcpy=vt_memcpy', '-Dmemset=vt_memset'] + inc + ['-c', s, '-o', o])
+        cmds.append(['clang', '-std=gnu99', opt, '-g', '-fsanitize=thread', '-Dmemcpy=vt_memcpy', '-Dmemset=vt_memset'] + list(extra) + inc + ['-c', s, '-o', o])
         objs.append(o)
     # thunks: plain
     for s in sorted(glob.glob(os.path.join(g, 'wrap_*.c'))) + [os.path.join(core.ROOT, 'world', w) for w in WSRC]:
@@ -27,18 +30,20 @@ def build(b, opt):
         objs.append(o)
     core.par(cmds, 'instrumented world')
     nobjs = core.build_native(os.path.join(b, 'native'), g, ['common.c', 'explore_sched.c'])
-    return core.link(os.path.join(b, 'explore_sched' + opt), nobjs + objs)
+    return core.link(os.path.join(b, 'explore_sched' + opt + tag), nobjs + objs)
 
 
 def writable_sections():
-    """writable static storage of a plain (non-coverage) build of the two libraries"""
-    b = os.path.join(core.ROOT, 'build', 'C16', 'plain')
-    os.makedirs(b, exist_ok=True)
+    """writable static storage of plain (non-coverage) builds of the two libraries: the default
+    configuration and the one where the compiler does not predefine the byte-order macros"""
     cmds, objs = [], []
-    for s in core.repo_sources():
-        o = os.path.join(b, core.objname(s))
-        cmds.append(['gcc', '-std=gnu99', '-O2', '-fPIC', '-I' + os.path.join(core.REPO, 'include'), '-c', s, '-o', o])
-        objs.append(o)
+    for tag, extra in (('plain', []), ('plain-nomacro', NOMACRO)):
+        b = os.path.join(core.ROOT, 'build', 'C16', tag)
+        os.makedirs(b, exist_ok=True)
+        for s in core.repo_sources():
+            o = os.path.join(b, core.objname(s))
+            cmds.append(['gcc', '-std=gnu99', '-O2', '-fPIC'] + extra + ['-I' + os.path.join(core.REPO, 'include'), '-c', s, '-o', o])
+            objs.append(o)
     core.par(cmds)
     bad = []
     for o in objs:
@@ -46,9 +51,9 @@ def writable_sections():
         for line in out.splitlines():
             p = line.split()
             if len(p) >= 2 and p[0] in ('.data', '.bss', '.tbss', '.tdata') and p[1].isdigit() and int(p[1]) > 0:
-                bad.append('%s %s=%s' % (os.path.basename(o), p[0], p[1]))
+                bad.append('%s%s %s=%s' % (os.path.basename(o), ' (no byte-order macros)' if 'nomacro' in o else '', p[0], p[1]))
             if len(p) >= 2 and p[0].startswith(('.data.', '.bss.')) and not p[0].startswith('.data.rel.ro') and p[1].isdigit() and int(p[1]) > 0:
-                bad.append('%s %s=%s' % (os.path.basename(o), p[0], p[1]))
+                bad.append('%s%s %s=%s' % (os.path.basename(o), ' (no byte-order macros)' if 'nomacro' in o else '', p[0], p[1]))
     return bad, len(objs)
 
 
@@ -57,8 +62,9 @@ def run(prop, tier):
     b = core.fresh_dir(os.path.join(core.ROOT, 'build', 'C16'))
     res = core.Result()
     infos, drivers = [], []
-    for opt in ('-O0', '-O2'):
-        exe = build(b, opt)
+    for opt, extra, tag in (('-O0', (), ''), ('-O2', (), ''), ('-O0', NOMACRO, '-nomacro')):
+        exe = build(b, opt, extra, tag)
+        opt = opt + tag
         p = subprocess.run([exe, '--tier', tier], stdout=subprocess.PIPE, stderr=subprocess.PIPE, text=True, timeout=3000)
         if p.returncode != 0 or not res.parse(p.stdout, opt):
             core.die_infra('schedule explorer (%s) failed: rc=%s %s' % (opt, p.returncode, p.stderr[-1500:]))
